@@ -44,22 +44,30 @@ theorem get_append {α : Type} {l : List α} {x q : α} {j : Nat} (h : l[j]? = s
 
 /-! ### the invariant -/
 
-/-- an awake watcher that cannot exit at its next section while a future is pending -/
-def Strong (s : St) : WPc → Prop
+/-- an awake watcher that cannot exit at its next section while a future with fire time `f` heads
+the heap: it has a callback to run, or its miss counter is fresh, or it is the last watcher, or the
+head is already due (it will pop it) -/
+def Strong (s : St) (f : Nat) : WPc → Prop
   | .top (some _) _ => True
-  | .top none mis => mis = 0 ∨ s.watchers ≤ 1
+  | .top none mis => mis = 0 ∨ s.watchers ≤ 1 ∨ f ≤ s.now
   | _ => False
 
-theorem Strong_mono {s t : St} (h : t.watchers ≤ s.watchers) {p : WPc} : Strong s p → Strong t p := by
+theorem Strong_mono {s t : St} {f : Nat} (h : t.watchers ≤ s.watchers) (hn : s.now ≤ t.now) {p : WPc} :
+    Strong s f p → Strong t f p := by
   cases p with
-  | top f mis =>
-    cases f with
-    | none => intro hs; rcases hs with h0 | h1
+  | top g mis =>
+    cases g with
+    | none => intro hs; rcases hs with h0 | h1 | h2
               · exact Or.inl h0
-              · exact Or.inr (Nat.le_trans h h1)
+              · exact Or.inr (Or.inl (Nat.le_trans h h1))
+              · exact Or.inr (Or.inr (Nat.le_trans h2 hn))
     | some _ => intro _; trivial
   | sleeping _ _ _ => exact id
   | exited => exact id
+
+theorem Strong_some (s : St) (f id m : Nat) : Strong s f (.top (some id) m) := trivial
+
+theorem Strong_fresh (s : St) (f : Nat) : Strong s f (.top none 0) := Or.inl rfl
 
 structure Inv (c : Cfg) (s : St) : Prop where
   wl : s.watchers = liveL s.threads
@@ -75,11 +83,13 @@ structure Inv (c : Cfg) (s : St) : Prop where
       0 < s.tokens ∨ ∀ id f, headOf s.heap = some (id, f) → d ≤ f
   /-- work pending ⇒ some watcher is alive -/
   ne : ∀ id f, headOf s.heap = some (id, f) → 1 ≤ s.watchers
-  /-- strictly before the head's fire time, with no token in flight, somebody is responsible in a
-  way that persists -/
-  key : ∀ id f, headOf s.heap = some (id, f) → s.tokens = 0 → s.now < f →
+  /-- with a future pending and no token in flight somebody is responsible in a way that persists:
+  every sleeper wakes by the head's fire time (so whoever is left after an exit still does), or an
+  awake watcher cannot exit before popping / going to sleep, or a sleeper wakes exactly at the
+  head's fire time (and then finds it due) -/
+  key : ∀ id f, headOf s.heap = some (id, f) → s.tokens = 0 →
       (∀ (j d m : Nat) (cp : Bool), s.threads[j]? = some (.sleeping d m cp) → d ≤ f) ∨
-      (∃ (j : Nat) (p : WPc), s.threads[j]? = some p ∧ Strong s p) ∨
+      (∃ (j : Nat) (p : WPc), s.threads[j]? = some p ∧ Strong s f p) ∨
       (∃ (j m : Nat) (cp : Bool), s.threads[j]? = some (.sleeping f m cp))
 
 theorem Inv.init (c : Cfg) : Inv c St.init where
@@ -140,7 +150,7 @@ theorem Inv.add {c : Cfg} (hm : 1 ≤ c.maxWorkers) {s : St} (h : Inv c s) (fire
       · cases hnl _ _ hj
       · cases hj
     · intro _ _ _; exact Nat.le_refl 1
-    · intro id f _ _ _
+    · intro id f _ _
       refine Or.inr (Or.inl ⟨s.threads.length, WPc.top none 0, ?_, Or.inl rfl⟩)
       show (s.threads ++ [WPc.top none 0])[s.threads.length]? = _
       simp
@@ -276,7 +286,7 @@ theorem Inv.section_out {c : Cfg} {s t : St} (h : Inv c s) {i : Nat} {f : Option
         · exact (hnu j d m hne hj).elim
         · cases hj
     · intro _ _ _; show 1 ≤ s.watchers + 1; omega
-    · intro a b _ _ _
+    · intro a b _ _
       exact Or.inr (Or.inl ⟨i, WPc.top (some id) (misNext f mis), get_set_self hi', trivial⟩)
   | pop id fireT hh hdue _ =>
     refine ⟨?_, h.tok, h.wmax, ?_, ?_, ?_, ?_, ?_⟩
@@ -295,7 +305,7 @@ theorem Inv.section_out {c : Cfg} {s t : St} (h : Inv c s) {i : Nat} {f : Option
       · cases hq
       · exact (hnu j d m hne hj).elim
     · intro _ _ _; exact hwpos
-    · intro a b _ _ _
+    · intro a b _ _
       exact Or.inr (Or.inl ⟨i, WPc.top (some id) (misNext f mis), get_set_self hi, trivial⟩)
   | exitBusy id fireT hh hnd hw hm1 =>
     refine ⟨?_, h.tok, ?_, ?_, ?_, ?_, ?_, ?_⟩
@@ -316,8 +326,10 @@ theorem Inv.section_out {c : Cfg} {s t : St} (h : Inv c s) {i : Nat} {f : Option
       · cases hq
       · exact (hnu j d m hne hj).elim
     · intro _ _ _; show 1 ≤ s.watchers - 1; omega
-    · intro a b hab ht hnow
-      rcases h.key a b hab ht hnow with h1 | ⟨j, p, hj, hs⟩ | ⟨j, m, cp, hj⟩
+    · intro a b hab ht
+      have hab' : headOf s.heap = some (a, b) := hab
+      rw [hh] at hab'; cases hab'
+      rcases h.key id fireT hh ht with h1 | ⟨j, p, hj, hs⟩ | ⟨j, m, cp, hj⟩
       · left
         intro j d m cp hj
         rcases set_get hj with ⟨_, hq⟩ | ⟨_, hj⟩
@@ -332,10 +344,11 @@ theorem Inv.section_out {c : Cfg} {s t : St} (h : Inv c s) {i : Nat} {f : Option
           cases f with
           | some _ => simp [misNext] at hm1
           | none =>
-            rcases hs with h0 | h1
+            rcases hs with h0 | h1 | h2
             · subst h0; simp [misNext] at hm1
             · omega
-        · refine ⟨j, p, ?_, Strong_mono (Nat.sub_le _ _) hs⟩
+            · omega
+        · refine ⟨j, p, ?_, Strong_mono (s := s) (by exact Nat.sub_le _ _) (by exact Nat.le_refl _) hs⟩
           show (s.threads.set i _)[j]? = some p
           rw [get_set_ne hji]; exact hj
       · right; right
@@ -363,10 +376,10 @@ theorem Inv.section_out {c : Cfg} {s t : St} (h : Inv c s) {i : Nat} {f : Option
       · cases hq
       · exact (hnu j d m hne hj).elim
     · intro _ _ _; exact hwpos
-    · intro a b hab _ hnow
+    · intro a b hab _
       have hab' : headOf s.heap = some (a, b) := hab
       rw [hh] at hab'; cases hab'
-      have hnow' : s.now < fireT := hnow
+      have hnow' : s.now < fireT := hnd
       by_cases hle : fireT - s.now ≤ c.idle
       · right; right
         refine ⟨i, misNext f mis, true, ?_⟩
@@ -406,7 +419,7 @@ theorem Inv.section_out {c : Cfg} {s t : St} (h : Inv c s) {i : Nat} {f : Option
         exact Nat.le_refl _
       · exact (hnu j d m hne hj).elim
     · intro _ _ _; exact hwpos
-    · intro a b hab _ _
+    · intro a b hab _
       have hab' : headOf s.heap = some (a, b) := hab
       rw [hh] at hab'; cases hab'
       right; right
@@ -440,8 +453,8 @@ theorem Inv.timerWake {c : Cfg} {s : St} (h : Inv c s) {i d mis : Nat} {cp : Boo
     rcases set_get hj with ⟨_, hq⟩ | ⟨hne, hj⟩
     · cases hq
     · exact (hnu j d m hne hj).elim
-  · intro a b hab ht hnow
-    rcases h.key a b hab ht hnow with h1 | ⟨j, p, hj, hs⟩ | ⟨j, m, cp', hj⟩
+  · intro a b hab ht
+    rcases h.key a b hab ht with h1 | ⟨j, p, hj, hs⟩ | ⟨j, m, cp', hj⟩
     · left
       intro j d m cp hj
       rcases set_get hj with ⟨_, hq⟩ | ⟨_, hj⟩
@@ -450,17 +463,19 @@ theorem Inv.timerWake {c : Cfg} {s : St} (h : Inv c s) {i d mis : Nat} {cp : Boo
     · right; left
       have hji : j ≠ i := by
         intro e; subst e; rw [hi] at hj; cases hj; exact hs
-      refine ⟨j, p, ?_, Strong_mono (Nat.le_refl _) hs⟩
+      refine ⟨j, p, ?_, Strong_mono (s := s) (by exact Nat.le_refl _) (by exact Nat.le_refl _) hs⟩
       show (s.threads.set i _)[j]? = some p
       rw [get_set_ne hji]; exact hj
-    · right; right
-      have hji : j ≠ i := by
-        intro e; subst e; rw [hi] at hj; cases hj
-        have : s.now < d := hnow
-        omega
-      refine ⟨j, m, cp', ?_⟩
-      show (s.threads.set i _)[j]? = _
-      rw [get_set_ne hji]; exact hj
+    · by_cases hji : j = i
+      · -- the sleeper that wakes is the one with deadline = fire time: it finds the head due
+        subst hji
+        rw [hi] at hj; cases hj
+        right; left
+        exact ⟨j, WPc.top none mis, get_set_self hi, Or.inr (Or.inr hd)⟩
+      · right; right
+        refine ⟨j, m, cp', ?_⟩
+        show (s.threads.set i _)[j]? = _
+        rw [get_set_ne hji]; exact hj
 
 theorem Inv.tokenWake {c : Cfg} {s : St} (h : Inv c s) {i d mis : Nat} {cp : Bool}
     (hi : s.threads[i]? = some (.sleeping d mis cp)) :
@@ -485,7 +500,7 @@ theorem Inv.tokenWake {c : Cfg} {s : St} (h : Inv c s) {i d mis : Nat} {cp : Boo
     rcases set_get hj with ⟨_, hq⟩ | ⟨hne, hj⟩
     · cases hq
     · exact (hnu j d m hne hj).elim
-  · intro a b _ _ _
+  · intro a b _ _
     exact Or.inr (Or.inl ⟨i, WPc.top none 0, get_set_self hi, Or.inl rfl⟩)
 
 theorem Inv.tick {c : Cfg} {s : St} (h : Inv c s) : Inv c { s with now := s.now + 1 } := by
@@ -494,11 +509,10 @@ theorem Inv.tick {c : Cfg} {s : St} (h : Inv c s) : Inv c { s with now := s.now 
     have := h.cap j d m hj
     show d ≤ s.now + 1 + c.idle
     omega
-  · intro a b hab ht hnow
-    have hnow' : s.now + 1 < b := hnow
-    rcases h.key a b hab ht (by omega) with h1 | ⟨j, p, hj, hs⟩ | h3
+  · intro a b hab ht
+    rcases h.key a b hab ht with h1 | ⟨j, p, hj, hs⟩ | h3
     · exact Or.inl h1
-    · exact Or.inr (Or.inl ⟨j, p, hj, Strong_mono (Nat.le_refl _) hs⟩)
+    · exact Or.inr (Or.inl ⟨j, p, hj, Strong_mono (s := s) (by exact Nat.le_refl _) (by exact Nat.le_succ _) hs⟩)
     · exact Or.inr (Or.inr h3)
 
 /-! ### all steps, all reachable states -/
